@@ -10,7 +10,9 @@ LEVEL = "exploration"
 RULE = ("seeded generator of serialized BTC transactions (1..N inputs, script-sigs of 1..8 "
         "operations over direct/PUSHDATA1/2/4 (minimal and non-minimal), OP_0, OP_1..16, "
         "OP_1NEGATE, non-push opcodes, redeem-script pushes; 0..N outputs; odd versions and "
-        "lock times), each run through comm.bitcoin.get_unsigned_tx and compared field by field "
+        "lock times; a tenth with a script length - as signed or once blanked -, an output "
+        "script length or an input/output count exactly on a varint boundary 252..256, "
+        "65535, 65536), each run through comm.bitcoin.get_unsigned_tx and compared field by field "
         "with an independent byte-level parser/tokenizer; plus signature-variant pairs, "
         "idempotence, every truncation point / trailing garbage / empty script / truncated "
         "push, and a subset relayed through the whole stack to the simulated device. "
@@ -22,9 +24,11 @@ ASSUMPTIONS = [
     "non-canonical varints and witness-serialised inputs are exercised for robustness only",
 ]
 FLOORS = {"quick": {"evaluations": 1500, "oracle_checks": 1500, "malformed_cases": 300,
-                    "stack_relays": 40, "pairs": 200},
+                    "stack_relays": 40, "pairs": 200,
+                    "varint_edge_cases": 60},
           "thorough": {"evaluations": 400000, "oracle_checks": 300000, "malformed_cases": 50000,
-                       "stack_relays": 3000, "pairs": 150000}}
+                       "stack_relays": 3000, "pairs": 150000,
+                       "varint_edge_cases": 20000}}
 
 
 def shards(tier, seed):
@@ -79,6 +83,9 @@ def run_shard(spec, acc):
                           big=big and (i % 50 == 0))
         u = check_tx(acc, tx["raw"], tx, get_unsigned_tx)
         kinds = sorted({k for ks in tx["kinds"] for k in ks})
+        for e in tx.get("edges", []):
+            acc.count("varint_edge_cases")
+            acc.distinct.add("edge|" + e)
         nontrivial = any(len(ks) >= 2 for ks in tx["kinds"])
         if nontrivial:
             acc.distinct.add("tx|%d|%s|%s" % (len(tx["ins"]), ",".join(kinds),
